@@ -185,3 +185,100 @@ META = {
     'float_sites': ['const._DNS_PTR_MIN_TTL = 1125.0 (exact)'],
     'assumptions': ['CrossHair 0.0.110 / z3 5.1.0 exhaustion bookkeeping', 'records are created with created == arrival time'],
 }
+
+
+# ------------------------------------------------------------------ E2: record-age arithmetic from the AST of _dns.py
+
+
+def _age_lemmas() -> List[Obligation]:
+    import z3
+
+    from vkit import pyz3
+    from zeroconf._dns import DNSRecord
+
+    def outcomes(method: str, **args: Any) -> Any:
+        created, ttl = z3.Int('created'), z3.Int('ttl')
+        ev = pyz3.Evaluator(getattr(DNSRecord, method), {'created': created, 'ttl': ttl})
+        return ev.run(args), [created >= 1, created <= 2**44, ttl >= 0, ttl <= 2**32 - 1]
+
+    def value(paths: Any) -> Any:
+        """Fold (condition, ('return', v)) pairs into one term."""
+        term = None
+        for cond, (kind, v) in reversed(paths):
+            assert kind == 'return'
+            v = v if isinstance(v, z3.ExprRef) else (z3.BoolVal(v) if isinstance(v, bool) else (z3.RealVal(v) if isinstance(v, float) else z3.IntVal(v)))
+            if term is not None and term.sort() != v.sort():
+                term, v = (z3.ToReal(term) if term.sort() == z3.IntSort() else term), (z3.ToReal(v) if v.sort() == z3.IntSort() else v)
+            term = v if term is None else z3.If(cond, v, term)
+        return term
+
+    def lemma(name: str, build: Any) -> Any:
+        def run() -> Dict[str, Any]:
+            try:
+                goal, base = build()
+            except pyz3.Unsupported as e:
+                return {'verdict': 'inconclusive', 'queries': 0, 'solver_s': 0, 'detail': f'outside the translated subset: {e}'}
+            r, model, dt = pyz3.solve(base + [z3.Not(goal)], 60000)
+            if r == 'unsat':
+                return {'verdict': 'discharged', 'queries': 1, 'solver_s': round(dt, 3)}
+            if r == 'sat':
+                return {'verdict': 'counterexample', 'witness': {str(d): model[d].as_long() for d in model.decls()}, 'queries': 1, 'solver_s': round(dt, 3)}
+            return {'verdict': 'inconclusive', 'queries': 1, 'solver_s': round(dt, 3)}
+
+        return run
+
+    now = z3.Int('now')
+    nb = [now >= 0, now <= 2**45]
+
+    def b_expired_stale() -> Any:
+        e, base = outcomes('is_expired', now=now)
+        s, _ = outcomes('is_stale', now=now)
+        return z3.Implies(value(e), value(s)), base + nb
+
+    def b_stale_not_recent() -> Any:
+        s, base = outcomes('is_stale', now=now)
+        r, _ = outcomes('is_recent', now=now)
+        return z3.Implies(value(s), z3.Not(value(r))), base + nb
+
+    def b_expiry_agrees() -> Any:
+        e, base = outcomes('is_expired', now=now)
+        x, _ = outcomes('get_expiration_time', percent=100)
+        return value(e) == (value(x) <= now), base + nb
+
+    def b_remaining() -> Any:
+        e, base = outcomes('is_expired', now=now)
+        rem, _ = outcomes('get_remaining_ttl', now=now)
+        created, ttl = z3.Int('created'), z3.Int('ttl')
+        left = z3.ToReal(created + 1000 * ttl - now)
+        v = value(rem)
+        v = z3.ToReal(v) if v.sort() == z3.IntSort() else v
+        return z3.And(z3.Implies(value(e), v == 0), z3.Implies(z3.Not(value(e)), v * 1000 == left)), base + nb
+
+    def replay(w: Dict[str, Any]) -> List[str]:
+        from zeroconf._dns import DNSPointer
+
+        r = DNSPointer('a.local.', 12, 1, w.get('ttl', 0), 'b.a.local.', w.get('created', 1))
+        n = w.get('now', 0)
+        out = []
+        if r.is_expired(n) and not r.is_stale(n):
+            out.append('expired but not stale')
+        if r.is_stale(n) and r.is_recent(n):
+            out.append('stale and recent')
+        if r.is_expired(n) != (r.get_expiration_time(100) <= n):
+            out.append('is_expired disagrees with get_expiration_time(100)')
+        if r.is_expired(n) and r.get_remaining_ttl(n) != 0:
+            out.append('expired record has remaining TTL')
+        if not r.is_expired(n) and r.get_remaining_ttl(n) * 1000 != r.created + 1000 * r.ttl - n:
+            out.append('remaining TTL is not (created + 1000 ttl - now) / 1000')
+        return out
+
+    items = [('expired implies stale', b_expired_stale), ('stale excludes recent', b_stale_not_recent),
+             ('is_expired agrees with get_expiration_time(100)', b_expiry_agrees), ('remaining TTL', b_remaining)]
+    return [Obligation(f'age-arithmetic[{n}]', lemma(n, b), 'age-arithmetic', {}, kind='smt', timeout=70, replay=replay) for n, b in items]
+
+
+_obligations_e1 = obligations
+
+
+def obligations(tier: str) -> List[Obligation]:  # type: ignore[no-redef]
+    return _obligations_e1(tier) + _age_lemmas()
